@@ -1,4 +1,4 @@
-"""C07 -- import tidying never changes what a name means (R07.1-R07.13)."""
+"""C07 -- import tidying never changes what a name means (R07.1-R07.14)."""
 from __future__ import annotations
 
 import ast
@@ -36,6 +36,9 @@ def check(ctx, res) -> None:
     _alias_pair_rule(ctx, res)
     _global_declaration_rule(ctx, res)
     _import_rewriter_lines_rule(ctx, res)
+    from .c16 import first_import_line_rule
+
+    first_import_line_rule(ctx, res, "R07.14")
     from .common import relative_level_rule
 
     relative_level_rule(ctx, res, "R07.10")
